@@ -54,8 +54,9 @@ def make(ctl, plain, mode="constant", maxp=1, layer=False, th=None, red=None):
     params = {"c04": cfgdesc.c04_params(refdesc),
               "ctl": [{"c": cfgdesc.code(CTL[n][0]), "k": CTL[n][1], "n": CTL[n][2]} for n in ctl],
               "th": ths, "max": maxp, "recorded": mode == "recorded", "red": 5 if red is None else red,
-              # the gaps between recorded events are only read for time-sensitive keys replayed with recorded delays
-              "gcap": (th[1] + 2) if (th and mode == "recorded") else 0}
+              # the gaps between recorded events are read with recorded delays: whether a gap is 2 ticks or more decides the
+              # call in which the replayed event shows; a time-sensitive key needs the gap up to its timeout
+              "gcap": (max(2, th[1] + 2) if th else 2) if mode == "recorded" else 0}
     return desc, params
 
 
@@ -254,7 +255,8 @@ def directed(cfgname, rng, tier):
                 s += tap("play1", 1, 0) + wait_replay(len(evs) + 3)
                 if late:
                     s += rel
-                s += tap("play1", 2, 0) + wait_replay(len(evs) + 3)
+                # the second time the play key is held until the replay is over (nothing typed meanwhile: the pacing is judged)
+                s += [["d", C("play1")]] + wait_replay(len(evs) + 3) + [["u", C("play1")], ["t", 2]]
                 s += [["t", 30]]
                 S.append(s)
     if cfgname == "taphold":
@@ -263,12 +265,12 @@ def directed(cfgname, rng, tier):
         # event is the press of the time-sensitive key), or released first
         F = []
         for w in (1, 3, 5, 9):
-            for h in (1, 2, 6, 8):
+            for h in (1, 3, 4, 6):       # T - 1 is the last tick of the tap, T the first of the hold
                 for st in ("stop", "stopt1", "rec1"):
                     # (the keys after the tap-hold key wait until its delayed release has been written: a control key
                     # typed earlier is processed late, the known defect class)
                     F.append([["d", C("rec1")], ["t", w]] + tap("c", h, 14) + [["u", C("rec1")], ["t", 2]] + tap(st, 1, 2) +
-                             tap("play1", 1, 0) + wait_replay(6) + tap("play1", 1, 0) + wait_replay(6) + [["t", 30]])
+                             tap("play1", 1, 0) + wait_replay(6) + [["d", C("play1")]] + wait_replay(6) + [["u", C("play1")], ["t", 30]])
                 F.append(tap("rec1", 1, w) + tap("c", h, 14) + tap("c", 1, 14) + tap("stop", 1, 2) + tap("play1", 1, 0) +
                          wait_replay(8) + [["t", 30]])
                 F.append([["d", C("rec1")], ["t", w]] + tap("c", h, 2) + [["u", C("rec1")], ["t", 2]] + tap("stop", 1, 2) +
@@ -288,7 +290,7 @@ def directed(cfgname, rng, tier):
                 S.append(s)
                 # macro 2 recorded before macro 1 exists: the nested play uses what is stored when 2 is replayed
                 s = tap("rec2") + outer_pre + tap("play1") + outer_post + tap("stop", 1, 2) + recmac("rec1", inner) + \
-                    tap("play2", 1, 0) + wait_replay(20) + [["t", 30]]
+                    [["d", C("play2")]] + wait_replay(20) + [["u", C("play2")], ["t", 30]]
                 S.append(s)
     # recursion: 1 contains play1; 1 -> 2 -> 1
     S.append(tap("rec1") + tap("a") + tap("play1") + tap("b") + tap("stop", 1, 2) + tap("play1", 1, 0) + wait_replay(12) + [["t", 30]])
@@ -315,7 +317,7 @@ def directed(cfgname, rng, tier):
         body = []
         for i in range(n):
             body += tap("a" if i % 2 == 0 else "b", 1, rng.choice([1, 1, 2]))
-        S.append(tap("rec1") + body + tap("stop", 1, 2) + tap("play1", 1, 0) + wait_replay(2 * n + 3) + [["t", 30]])
+        S.append(tap("rec1") + body + tap("stop", 1, 2) + [["d", C("play1")]] + wait_replay(2 * n + 3) + [["u", C("play1")], ["t", 30]])
         # all presses first (keys held): the limit counts events, not keys
     S.append(tap("rec1") + [["d", C("a")], ["t", 1], ["d", C("b")], ["t", 1], ["d", C("lsft")], ["t", 1]] + tap("stop", 1, 2) +
              [["u", C("a")], ["t", 1], ["u", C("b")], ["t", 1], ["u", C("lsft")], ["t", 1]] + tap("play1", 1, 0) + wait_replay(8) + [["t", 30]])
